@@ -17,6 +17,9 @@ structure DState where
   /-- `nomodel`: the rest of this case is not answered by the model (histories of tens of thousands of steps, judged by the
       generator's expectations and the crash oracle alone) -/
   muted : Bool := false
+  /-- start addresses of the areas the case created itself (`area`, `areaz`, `zero`, `any`, `anyz`); every other area — stack,
+      argument strings, heap, ELF segments — is the emulator's own, and so is its name -/
+  userStarts : List Nat := []
   /-- did the last `step` succeed, as far as the model knows (`none`: not known) -/
   lastStepOk : Option Bool := none
   /-- a failed instruction may have updated the flags before its write-back failed -/
@@ -38,6 +41,14 @@ def memRes (st : DState) (r : Out Mem) : DState × String :=
   | .ok m => ({ st with m := { st.m with mem := m } }, "ok")
   | .err => (st, "err")
   | .panic => (st, "panic")
+
+/-- a successful creation appends exactly one area: remember its start as the case's own -/
+def userCreated (st : DState) (p : DState × String) : DState × String :=
+  if p.1.m.mem.length = st.m.mem.length + 1 then
+    match p.1.m.mem.getLast? with
+    | some ar => ({ p.1 with userStarts := ar.start :: p.1.userStarts }, p.2)
+    | none => p
+  else p
 
 def addrRes (st : DState) (r : Out (Nat × Mem)) : DState × String :=
   match r with
@@ -107,13 +118,13 @@ def handleMem (st : DState) (ws : List String) : Option (DState × String) :=
     pure (st, outStr (fun bs => "ok " ++ bytesToHex bs) (memReadExec st.m.mem a))
   | ["area", s, d, nm] => do
     let s ← parseHex? s; let d ← parseHexBytes? d
-    pure (memRes st (initArea st.m.mem s d (parseName nm)))
+    pure (userCreated st (memRes st (initArea st.m.mem s d (parseName nm))))
   | ["areaz", s, n, seed, nm] => do
     let s ← parseHex? s; let n ← parseHex? n; let seed ← parseHex? seed
-    pure (memRes st (initArea st.m.mem s (lcgBytes seed n) (parseName nm)))
+    pure (userCreated st (memRes st (initArea st.m.mem s (lcgBytes seed n) (parseName nm))))
   | ["zero", s, n, nm] => do
     let s ← parseHex? s; let n ← parseHex? n
-    pure (memRes st (initZero st.m.mem s n (parseName nm)))
+    pure (userCreated st (memRes st (initZero st.m.mem s n (parseName nm))))
   | ["prot", s, p] => do
     let s ← parseHex? s; let p ← parseHex? p
     pure (memRes st (memProt st.m.mem s p))
@@ -130,11 +141,13 @@ def handleMem (st : DState) (ws : List String) : Option (DState × String) :=
     pure (memRes st (resizeSection st.m.mem s n))
   | ["anyz", n] => do
     let n ← parseHex? n
-    pure (addrRes st (initZeroAnywhere st.m.mem n))
+    pure (userCreated st (addrRes st (initZeroAnywhere st.m.mem n)))
   | ["any", d, nm] => do
     let d ← parseHexBytes? d
-    pure (addrRes st (initAnywhere st.m.mem d (parseName nm)))
-  | ["areas"] => some (st, if st.m.mem.isEmpty then "none" else " ".intercalate (st.m.mem.map areaLine))
+    pure (userCreated st (addrRes st (initAnywhere st.m.mem d (parseName nm))))
+  -- names of areas the case did not create itself are marked `!`: they are the emulator's own choice, not compared
+  | ["areas"] => some (st, if st.m.mem.isEmpty then "none" else
+      " ".intercalate (st.m.mem.map fun ar => (if st.userStarts.contains ar.start then "" else "!") ++ areaLine ar))
   | _ => none
 
 def traceLine (t : List TraceEntry) : String :=
